@@ -104,7 +104,10 @@ where
                 IndexData::I18NString(strings) => {
                     for _ in 0..entry.num_items {
                         let (rest, raw_string) = complete::take_till(|item| item == 0)(remaining)?;
-                        remaining = rest;
+                        // skip the terminator, exactly as for string arrays
+                        remaining = rest.get(1..).ok_or_else(|| {
+                            Error::Nom("Unterminated string in i18n string entry".to_string())
+                        })?;
                         let string = String::from_utf8_lossy(raw_string).to_string();
                         strings.push(string);
                     }
